@@ -47,7 +47,7 @@ def norm(line):
     return re.sub(r" writes=\S+", "", line)
 
 
-def proto_check(ctx, module, theorems, sections, extra_quick, extra_thorough, props, what, assumptions, lean_relevant):
+def proto_check(ctx, module, theorems, sections, extra_quick, extra_thorough, props, what, assumptions, lean_relevant, pre_finish=None):
     """props: property ids whose implementation-level failures this check reports;
     lean_relevant(op_line) -> bool: which Lean-side lines belong to this property"""
     pr = prove(ctx, module, theorems)
@@ -107,6 +107,14 @@ def proto_check(ctx, module, theorems, sections, extra_quick, extra_thorough, pr
                                 kept.append(keep_file(ctx, t, "lean%d" % reported))
                         violation(ctx, "correspondence: the Lean reader and the real recovery disagree on a crash image",
                                   "%s\n# kept: %s\n# implementation: %s\n# model: %s\n" % (op, kept, im[:400], mo[:400]), no_input=(nfail == 0))
+    if not samples:
+        for o in outs:
+            if "crash" in o:
+                continue
+            block = ["%s | impl: %s | model: %s" % (a.split(" /dev/shm")[0][:160], b[:120], c[:120]) for a, b, c in zip(o["ops"], o["impl"], o["model"]) if lean_relevant(a)][:10]
+            if block:
+                samples = [block]
+                break
     ctx.log("proto: %d images, %d Lean lines, %d implementation-level failures for %s, %d Lean-side differences" % (images, lines, nfail, props, diffs))
     cov = cov0({
         "evaluations": images + lines, "distinct_nontrivial": len(distinct),
@@ -117,6 +125,8 @@ def proto_check(ctx, module, theorems, sections, extra_quick, extra_thorough, pr
                 "accept/durable/retire/skip/ack events go to the Lean acceptor; fault plans fail single/paired/persistent write and fsync calls before or after the bytes land; "
                 "partition runs check ownership and counters at every acknowledged flush on 20-40 block devices. Distinct = SHA-1 of (line, answer).",
         "samples": samples, "images": images, "lean_lines": lines, "kind_histogram": kinds, "implementation_failures": nfail,
-        "lean_differences": diffs, "max_durability_latency_ms": latency, "traces_validated_against_impl": kinds.get("crash-workload", 0) + kinds.get("fault-run", 0),
+        "lean_differences": diffs, "max_durability_latency_ms": latency, "traces_validated_against_impl": kinds.get("crash-workload", 0) + kinds.get("fault-run", 0) + kinds.get("writebehind-run", 0) + kinds.get("partition-run", 0),
     })
+    if pre_finish:
+        pre_finish(ctx, cov)
     return finish(ctx, "proof", cov, assumptions)
